@@ -5,6 +5,8 @@ import (
 	"fmt"
 	"math/big"
 	"strings"
+	"sync"
+	"sync/atomic"
 	"testing"
 	"time"
 
@@ -117,6 +119,8 @@ func genC12(r *kernel.Rand) *kernel.Scenario {
 		c["vsettle_sendfail"] = int64(1 + r.Intn(2))
 	} else if c["virtual"] > 0 && r.Bool(0.15) {
 		c["vfund_sendfail"] = int64(1 + r.Intn(2))
+	} else if r.Bool(0.15) {
+		c["sendfail_nth"], c["sendfail_dir"] = int64(r.Range(1, 30)), int64(r.Intn(2))
 	}
 	n := r.Range(1, 6)
 	for i := 0; i < n; i++ {
@@ -154,7 +158,28 @@ func execC12(tt *testing.T, sc *kernel.Scenario, trace bool) *kernel.Result {
 		a := &c12adv{t: t, pendingOver: make(chan struct{})}
 		a.zWire = map[wallet.BackendID]wire.Address{channel.TestBackendID: func() *simwire.Address { x := simwire.NewAddress(); copy(x[:], "stranger-Z"); return x }()}
 		t.w.Bus.Name(a.zWire, "Z")
-		if f := sc.Cfg("vfund_sendfail", 0); f > 0 {
+		if n := sc.Cfg("sendfail_nth", 0); n > 0 {
+			// one transient connection fault somewhere in the honest traffic of the
+			// run: the n-th message that the hub sends, or that is sent to the hub,
+			// (after the ledger channels are open) fails in the bus
+			seen, dir := int64(0), sc.Cfg("sendfail_dir", 0)
+			var once sync.Once
+			t.w.Bus.FailSend = func(from, to string, e *wire.Envelope) bool {
+				if (dir == 0 && from != "H") || (dir == 1 && to != "H") {
+					return false
+				}
+				if atomic.AddInt64(&seen, 1) != n {
+					return false
+				}
+				hit := false
+				once.Do(func() {
+					hit = true
+					s.Count("fault.transient_send_error_in_honest_traffic", 1)
+					s.Note("transient send error: %s -> %s %s", from, to, s.DescribeMsg(e.Msg))
+				})
+				return hit
+			}
+		} else if f := sc.Cfg("vfund_sendfail", 0); f > 0 {
 			// a transient connection fault while an honest virtual channel is being
 			// funded: the hub's acceptance of one party's funding proposal is not sent
 			victim, done := []string{"A", "B"}[(f-1)&1], false
@@ -172,7 +197,9 @@ func execC12(tt *testing.T, sc *kernel.Scenario, trace bool) *kernel.Result {
 				a.virt = v
 			}
 		}
-		t.w.Bus.FailSend = nil
+		if sc.Cfg("sendfail_nth", 0) == 0 {
+			t.w.Bus.FailSend = nil
+		}
 		// optionally H holds its machine lock on A-H with a pending own request:
 		// A's client answers that request only after a long reaction time
 		holdDone := make(chan struct{})
@@ -238,6 +265,10 @@ func execC12(tt *testing.T, sc *kernel.Scenario, trace bool) *kernel.Result {
 				s.Count("fault.virtual_settlement_acceptance_not_sent", 1)
 			}
 			s.Note("virtual settlement with a send fault towards %s: errA=%v errB=%v", victim, errA, errB)
+		} else if sc.Cfg("sendfail_nth", 0) > 0 && sc.Cfg("vsettle_gap_ms", 0) == 0 && a.virt != nil && !s.Failed() {
+			// (more honest traffic for the transient send error to land in)
+			errA, errB := t.settleVirtual(len(sc.Steps), 0, 1)
+			s.Note("virtual settlement under a transient send error somewhere: errA=%v errB=%v", errA, errB)
 		} else if sc.Cfg("vsettle_gap_ms", 0) > 0 && a.virt != nil && !s.Failed() {
 			// the honest virtual channel is finalised and settled, the two parties'
 			// settlement proposals reaching the hub more than its 10 s patience apart
@@ -248,6 +279,7 @@ func execC12(tt *testing.T, sc *kernel.Scenario, trace bool) *kernel.Result {
 			s.Note("late virtual settlement: errA=%v errB=%v", errA, errB)
 		}
 		// faults have stopped: run past every internal timeout, then probe
+		t.w.Bus.FailSend = nil
 		t.A.OnUpdate = func(cur *channel.State, u client.ChannelUpdate) (bool, time.Duration) {
 			return true, 50 * time.Microsecond
 		}
